@@ -679,7 +679,6 @@ package channel
 //@     invariant 0 <= $i - 1 && forall b wallet.BackendID :: visited(b) ==> has(backend, b) && backend[b] != nil
 //@     invariant forall b wallet.BackendID :: visited(b) ==> b == addrBackend(ps[b]) && has(backend, addrBackend(ps[b])) && backend[addrBackend(ps[b])] != nil
 
-
 //@ func (*Balances).Decode
 //@   requires r != nil
 //@   modifies b.*
